@@ -47,6 +47,9 @@ func runOne(t *testing.T, tr *drv.Tracer, sid int, sched []drv.Step) bool {
 	toReal := map[mduty]core.Duty{}
 	toModel := map[core.Duty]mduty{}
 	sentinel := core.NewBuilderRegistrationDuty(999_999_999)
+	// the gate: a never-expiring duty whose deadline lookup blocks the run goroutine until the driver lets go
+	gate := core.NewBuilderRegistrationDuty(999_999_998)
+	var gateEntered, gateRelease chan struct{}
 	realOf := func(m mduty) core.Duty {
 		if d, ok := toReal[m]; ok {
 			return d
@@ -62,11 +65,16 @@ func runOne(t *testing.T, tr *drv.Tracer, sid int, sched []drv.Step) bool {
 		return d
 	}
 	for _, st := range sched {
-		if drv.Str(st["ev"]) == "Add" {
+		if ev := drv.Str(st["ev"]); ev == "Add" || ev == "RaceAdd" {
 			realOf(parseDuty(st["d"]))
 		}
 	}
 	deadlineFunc := func(d core.Duty) (time.Time, bool) {
+		if d == gate {
+			close(gateEntered)
+			<-gateRelease
+			return time.Time{}, false
+		}
 		m, ok := toModel[d]
 		if !ok || m.DL < 0 {
 			return time.Time{}, false
@@ -101,6 +109,37 @@ func runOne(t *testing.T, tr *drv.Tracer, sid int, sched []drv.Step) bool {
 			settle()
 			name := map[core.DeadlineStatus]string{core.DeadlineExpired: "Expired", core.DeadlineScheduled: "Scheduled", core.DeadlineExempt: "Exempt"}[res]
 			tr.Emit(drv.Step{"ev": "Add", "d": drv.Step{"id": m.ID, "dl": m.DL}, "res": name})
+		case "RaceAdd":
+			// The clock advances and a registration arrives while the run goroutine is busy: when it returns to its
+			// select, the elapsed timer and the input are both ready and Go picks either.  Two events: the Advance and
+			// an Add marked race (the trace specification lets due timer fires happen before or after it).
+			m, by := parseDuty(st["d"]), drv.Num(st["by"])
+			gateEntered, gateRelease = make(chan struct{}), make(chan struct{})
+			gateDone := make(chan struct{})
+			go func() { dl.Add(gate); close(gateDone) }()
+			select {
+			case <-gateEntered:
+			case <-time.After(5 * time.Second):
+				hung = true
+				continue
+			}
+			clk.Advance(time.Duration(by) * unit)
+			resCh := make(chan core.DeadlineStatus, 1)
+			go func() { resCh <- dl.Add(realOf(m)) }()
+			time.Sleep(2 * time.Millisecond) // let the registration reach the input channel (coverage only, no verdict)
+			close(gateRelease)
+			var res core.DeadlineStatus
+			select {
+			case res = <-resCh:
+			case <-time.After(5 * time.Second):
+				hung = true
+				continue
+			}
+			<-gateDone
+			settle()
+			name := map[core.DeadlineStatus]string{core.DeadlineExpired: "Expired", core.DeadlineScheduled: "Scheduled", core.DeadlineExempt: "Exempt"}[res]
+			tr.Emit(drv.Step{"ev": "Advance", "by": by})
+			tr.Emit(drv.Step{"ev": "Add", "d": drv.Step{"id": m.ID, "dl": m.DL}, "res": name, "race": true})
 		case "Advance":
 			by := drv.Num(st["by"])
 			clk.Advance(time.Duration(by) * unit)
